@@ -27,7 +27,8 @@ CORR = ["Corr/FsCorr.v"]
 
 
 # ------------------------------------------------------------------ building
-def build_case(run, shoot, mod, idx, rng, cmd=None, force_mode=None, force_invoke=None, expect_fail=None):
+def build_case(run, shoot, mod, idx, rng, cmd=None, force_mode=None, force_invoke=None, expect_fail=None,
+               traced=True, fixed=False):
     """create the directory state of one case and run shoot on it under strace.
     returns the case dict (JSON-able except for bytes, which are latin-1 strings)"""
     cmd = cmd or fsgen.CMDS[idx % 4]
@@ -41,7 +42,7 @@ def build_case(run, shoot, mod, idx, rng, cmd=None, force_mode=None, force_invok
     hist = [fsgen.gen_inv(rng, p, root, history=True) for _ in range(nhist)]
     hist = [h for h in hist if h.mode != "star_space"]
     final = fsgen.gen_inv(rng, p, root, mode=force_mode, invoke=force_invoke)
-    if final.mode == "star_space" and not final.dirdot():
+    if final.mode == "star_space" and not final.dirdot() and not fixed:
         final.invoke = rng.choice(["pkg", "pkgdot"])     # the other combination is finding K_clean_own_output
     for inv in hist + [final]:
         if inv.mode != "star_noline":
@@ -80,9 +81,13 @@ def build_case(run, shoot, mod, idx, rng, cmd=None, force_mode=None, force_invok
     before = fsgen.snapshot(root)
     keep = fsgen.keep_links(root, mod / ("keep_%d" % idx))
     trace = run.scratch / ("trace_%d.txt" % idx)
-    res = fsgen.run_traced(shoot, final.cwd(root), args, trace)
+    if traced:
+        res = fsgen.run_traced(shoot, final.cwd(root), args, trace)
+    else:
+        r0 = l2.run_shoot(shoot, final.cwd(root), args, timeout=40)
+        res = {"rc": r0["rc"], "out": r0["out"], "err": r0["err"], "timed_out": r0["timed_out"]}
     text = trace.read_text(errors="replace") if trace.exists() else ""
-    ops, outside = fsgen.project(text, root, root / "p")
+    ops, outside = fsgen.project(text, root, root / "p", final.cwd(root))
     after = fsgen.snapshot(root)
     kept = {ino: Path(k).read_bytes() for ino, k in keep.items()}
     try:
@@ -93,7 +98,7 @@ def build_case(run, shoot, mod, idx, rng, cmd=None, force_mode=None, force_invok
     case = {
         "idx": idx, "cmd": cmd, "mode": final.mode, "invoke": final.invoke, "args": args,
         "cwd": str(final.cwd(root).relative_to(root)) or ".", "root_hint": str(root),
-        "clean": final.clean_active() and not fail, "dirdot": final.dirdot(),
+        "clean": final.clean_active() and not fail, "dirdot": final.dirdot(), "fixed": fixed,
         "sel": [] if fail else final.selection(), "expect_ok": not fail, "fail": fail,
         "sources": files, "history": hist_log, "planted": planted, "links": links,
         "before": before, "after": after, "kept": kept, "ops": ops, "outside_trace": outside,
@@ -144,9 +149,10 @@ def coq_case(case):
     ops = fsgen.coq_list(fsgen.coq_op(o, absf) for o in case["ops"])
     sel = fsgen.coq_list("(%s, %s)" % (fsgen.coq_str(g), fsgen.coq_str(t)) for g, t in case["sel"])
     rc = case["rc"] if 0 <= case["rc"] < 256 else 255
-    return ("{| k_cmd := %s; k_clean := %s; k_dirdot := %s; k_sel := %s; k_expect_ok := %s;\n   k_before := %s;\n"
+    return ("{| k_cmd := %s; k_clean := %s; k_dirdot := %s; k_fixed := %s; k_sel := %s; k_expect_ok := %s;\n   k_before := %s;\n"
             "   k_ops := %s;\n   k_after := %s;\n   k_kept := %s; k_rc := %d; k_outside := %s |}"
-            % (fsgen.coq_str(case["cmd"]), fsgen.coq_bool(case["clean"]), fsgen.coq_bool(case["dirdot"]), sel,
+            % (fsgen.coq_str(case["cmd"]), fsgen.coq_bool(case["clean"]), fsgen.coq_bool(case["dirdot"]),
+               fsgen.coq_bool(case.get("fixed", False)), sel,
                fsgen.coq_bool(case["expect_ok"]), before, ops, after, kept, rc,
                fsgen.coq_bool(outside_changed(case))))
 
@@ -297,7 +303,22 @@ def h_clean_own_output(shoot, mod):
 
 
 # -------------------------------------------------------------------- thorough
-def kill_case(run, shoot, mod, idx, rng, traced):
+def clone_tree(src, dst):
+    """copy a directory tree, reproducing its hard-link structure"""
+    shutil.rmtree(dst, ignore_errors=True)
+    shutil.copytree(src, dst)
+    first = {}
+    for rel, ino, _ in fsgen.snapshot(src):
+        if rel.endswith("/"):
+            continue
+        if ino in first:
+            os.unlink(Path(dst) / rel)
+            os.link(Path(dst) / first[ino], Path(dst) / rel)
+        else:
+            first[ino] = rel
+
+
+def kill_case(run, shoot, mod, idx, rng, traced, fixed=False):
     """one reference run and one run killed with SIGKILL at a random instant on two
     copies of the same directory state"""
     cmd = fsgen.CMDS[idx % 4]
@@ -323,18 +344,10 @@ def kill_case(run, shoot, mod, idx, rng, traced):
     planted = fsgen.plant(rng, root / "p", cmd, rng.randint(2, 6),
                           forced=("stale_same_cmd", "hand_lookalike"))
     links = fsgen.plant_links(rng, root, cmd, rng.randint(1, 3))
-    # the twin state: same names, same contents, same hard-link structure
-    twin = base / "kil"
-    shutil.copytree(root, twin)
-    ino_first = {}
-    for rel, ino, _ in fsgen.snapshot(root):
-        if rel.endswith("/"):
-            continue
-        if ino in ino_first:
-            os.unlink(twin / rel)
-            os.link(twin / ino_first[ino], twin / rel)
-        else:
-            ino_first[ino] = rel
+    # a backup of the state (same names, contents, hard-link structure); the reference run and the
+    # killed run both happen at the SAME path (generated code may mention import paths)
+    backup = base / "backup"
+    clone_tree(root, backup)
     args = final.args(root)
     before_ref = fsgen.snapshot(root)
     r0 = l2.run_shoot(shoot, final.cwd(root), args, timeout=60)
@@ -346,7 +359,9 @@ def kill_case(run, shoot, mod, idx, rng, traced):
     ainos = {n: i for n, i, _ in pkg_files(after_ref)}
     new = sorted((n, b) for n, b in anames.items() if n not in bnames or binos[n] != ainos[n])
     removed = sorted(n for n in bnames if n not in anames)
-    # the killed twin
+    # restore the state and run again, to be killed
+    twin = root
+    clone_tree(backup, twin)
     before = fsgen.snapshot(twin)
     keep = fsgen.keep_links(twin, base / "keep")
     targs = final.args(twin)
@@ -394,11 +409,11 @@ def kill_case(run, shoot, mod, idx, rng, traced):
     kept = {ino: Path(k).read_bytes() for ino, k in keep.items()}
     ops = []
     if traced and trace.exists():
-        ops, _ = fsgen.project(trace.read_text(errors="replace"), twin, pkgdir)
+        ops, _ = fsgen.project(trace.read_text(errors="replace"), twin, pkgdir, final.cwd(twin))
         trace.unlink()
     kc = {"idx": idx, "cmd": cmd, "args": args, "mode": final.mode, "invoke": final.invoke,
           "cwd": str(final.cwd(root).relative_to(root)) or ".",
-          "clean": final.clean_active(), "dirdot": final.dirdot(), "ref_rc": r0["rc"],
+          "clean": final.clean_active(), "dirdot": final.dirdot(), "fixed": fixed, "ref_rc": r0["rc"],
           "before": before, "after": after, "kept": kept, "new": new, "removed": removed,
           "killed_at": killed_at, "how": how, "traced": traced, "planted": planted, "links": links,
           "ops_seen": len(ops), "sources": files}
@@ -418,9 +433,10 @@ def coq_kcase(kc):
         return [(rel, b) for rel, ino, b in snap
                 if not (rel.startswith("p/") and "/" not in rel[2:] and not rel.endswith("/"))]
     outside = rest(kc["before"]) != rest(kc["after"])
-    return ("{| q_cmd := %s; q_clean := %s; q_dirdot := %s;\n   q_before := %s;\n   q_new := %s; q_ref_removed := %s;\n"
+    return ("{| q_cmd := %s; q_clean := %s; q_dirdot := %s; q_fixed := %s;\n   q_before := %s;\n   q_new := %s; q_ref_removed := %s;\n"
             "   q_after := %s;\n   q_kept := %s; q_outside := %s |}"
             % (fsgen.coq_str(kc["cmd"]), fsgen.coq_bool(kc["clean"]), fsgen.coq_bool(kc["dirdot"]),
+               fsgen.coq_bool(kc.get("fixed", False)),
                fsgen.coq_list("{| fi_name := %s; fi_ino := %d; fi_bytes := %s |}"
                               % (fsgen.coq_str(n), ids[ino], fsgen.coq_bytes(A(b))) for n, ino, b in bf),
                fsgen.coq_list("(%s, %s)" % (fsgen.coq_str(n), fsgen.coq_bytes(A(b))) for n, b in kc["new"]),
@@ -445,18 +461,19 @@ def reader_case(run, shoot, mod, idx, rng):
     first = fsgen.gen_inv(rng, p, root, mode="types", history=True)
     first.types = p.all_types()
     first.flags = fsgen.extra_flags(rng, cmd)
-    second = fsgen.Inv(p, "types", "pkg", first.flags if cmd in ("rest", "map") else
-                       (["-json"] if cmd == "enum" else ["-getset"]), types=list(first.types))
+    # same selection, another pinned version: every output changes (its header line does)
+    second = fsgen.Inv(p, "types", "pkg", list(first.flags) + ["-ver=v9.9.9"], types=list(first.types))
     l2.write_files(root, fsgen.render_pkg(p))
     l2.run_shoot(shoot, first.cwd(root), first.args(root), timeout=60)
     names = [fsgen.out_name(cmd, g, t) for g, t in first.selection()]
     old = {n: (root / "p" / n).read_bytes() for n in names if (root / "p" / n).exists()}
-    # the complete new contents, from a twin run
-    twin = mod / ("rdt_%d" % idx)
-    shutil.rmtree(twin, ignore_errors=True)
-    shutil.copytree(root, twin)
-    l2.run_shoot(shoot, twin / "p", second.args(twin), timeout=60)
-    new = {n: (twin / "p" / n).read_bytes() for n in old}
+    # the complete new contents: run the second command once (same path), then go back to the first
+    l2.run_shoot(shoot, root / "p", second.args(root), timeout=60)
+    new = {n: (root / "p" / n).read_bytes() for n in old}
+    l2.run_shoot(shoot, root / "p", first.args(root), timeout=60)
+    back = {n: (root / "p" / n).read_bytes() for n in old}
+    if back != old:
+        raise lib.CheckBroken("reader case: re-running the first command did not reproduce its outputs")
     stop = threading.Event()
     stats = {"reads": 0, "bad": []}
     lock = threading.Lock()
@@ -489,9 +506,99 @@ def reader_case(run, shoot, mod, idx, rng):
         t.join()
     changed = sum(1 for n in old if old[n] != new[n])
     shutil.rmtree(root, ignore_errors=True)
-    shutil.rmtree(twin, ignore_errors=True)
     return {"reads": stats["reads"], "bad": stats["bad"], "rcs": rcs, "outputs": len(old), "changing": changed,
             "cmd": cmd, "args": second.args(root)}
+
+
+# ---------------------------------------------------------------- L1: regexps, glob
+FRAGS = ["// Code generated by", "// Code generated by ", '"shoot ', '"', "shoot", " ", "-type=*", "-type=", "--type=*",
+         "-type *", "X", "*", "; ", "DO NOT EDIT", "DO NOT EDIT.", ".", " (v0.7.0)", "\n", "\r\n", "er", "-file=a.go",
+         "//", "/", "-getset ", "DO NOT", " EDIT", "package p", "\t", "=", "-"]
+NAME_FRAGS = [".shoot", "shoot", ".", "go", ".go", "a", "x_", "_", "o", "g", "test", "_test", ".g", "oo", "-", "A"]
+
+
+def l1_cases(run):
+    rng = run.rng
+    n = 4000 if run.thorough() else 700
+    heads = []
+    for _ in range(n):
+        cmd = rng.choice(fsgen.CMDS)
+        r = rng.random()
+        if r < 0.5:
+            # a real header, damaged
+            h = fsgen.header(cmd, rng.choice(["-type=*", "-type=Foo", "-file=a.go", "-getset -type=* ./p", "-type *",
+                                              "--type=*", "-type=*,Foo"]))
+            h += rng.choice(["\n", "", "\r\n", "\npackage p\n"])
+            for _ in range(rng.choice([0, 1, 1, 2, 3])):
+                k = rng.randrange(len(h) + 1)
+                op = rng.random()
+                if op < 0.4 and h:
+                    h = h[:k] + h[k + 1:]
+                elif op < 0.7:
+                    h = h[:k] + rng.choice(FRAGS + [cmd, cmd + " "]) + h[k:]
+                elif h and k < len(h):
+                    h = h[:k] + h[k].swapcase() + h[k + 1:]
+        else:
+            h = "".join(rng.choice(FRAGS + [cmd, cmd + " ", cmd]) for _ in range(rng.randint(0, 9)))
+        heads.append((rng.choice([cmd, cmd, rng.choice(fsgen.CMDS)]), h))
+    names = []
+    for _ in range(n):
+        cmd = rng.choice(fsgen.CMDS)
+        if rng.random() < 0.4:
+            nm = rng.choice(["a", "", ".h", "x.y", "_o"]) + ".shoot" + cmd + rng.choice(["", ".foo", "ish", "_test", "."]) + ".go"
+            for _ in range(rng.choice([0, 1, 1, 2])):
+                k = rng.randrange(len(nm) + 1)
+                nm = (nm[:k] + nm[k + 1:]) if rng.random() < 0.5 else (nm[:k] + rng.choice(NAME_FRAGS) + nm[k:])
+        else:
+            nm = "".join(rng.choice(NAME_FRAGS + [cmd]) for _ in range(rng.randint(0, 7)))
+        names.append((cmd, nm))
+    return heads, names
+
+
+def l1_checks(run):
+    """the hand-written header tests and glob of Model/Fs.v against the real isAllInOneFile /
+    isGeneratedBy (through /repo's verif-tagged probe) and path/filepath.Match"""
+    probe = lib.build_verifprobe(run)
+    fsm = run.build_helper("fsmatch")
+    heads, names = l1_cases(run)
+    d = run.scratch / "l1files"
+    d.mkdir(exist_ok=True)
+    calls = []
+    for i, (cmd, h) in enumerate(heads):
+        (d / ("h%d" % i)).write_bytes(h.encode())
+        calls.append(("isAllInOneFile", [str(d / ("h%d" % i))]))
+        calls.append(("isGeneratedBy", [str(d / ("h%d" % i)), cmd]))
+    res = lib.probe_calls(probe, calls)
+    hobs = []
+    for i in range(len(heads)):
+        a, g = res[2 * i], res[2 * i + 1]
+        if a[1] != "<nil>" or g[1] != "<nil>":
+            raise lib.CheckBroken("verifprobe error on header %r: %s %s" % (heads[i], a, g))
+        hobs.append((bool(a[0]), bool(g[0])))
+    inp = "".join("%s\t%s\n" % (lib.go_quote("*.shoot%s*.go" % cmd), lib.go_quote(nm)) for cmd, nm in names)
+    rc, out, err = lib.sh([str(fsm)], input=inp, timeout=120)
+    gobs = out.split()
+    if rc != 0 or len(gobs) != len(names) or "E" in gobs:
+        raise lib.CheckBroken("fsmatch failed: rc=%s %s" % (rc, err[-500:]))
+    hr = ["{| h_cmd := %s; h_bytes := %s; h_aio := %s; h_gen := %s |}"
+          % (fsgen.coq_str(cmd), fsgen.coq_str(h), fsgen.coq_bool(a), fsgen.coq_bool(g))
+          for (cmd, h), (a, g) in zip(heads, hobs)]
+    gr = ["{| g_cmd := %s; g_name := %s; g_match := %s |}" % (fsgen.coq_str(cmd), fsgen.coq_str(nm), fsgen.coq_bool(o == "1"))
+          for (cmd, nm), o in zip(names, gobs)]
+    hm = coq_verdicts(run, "c17hdr", hr, ctype="hcase", fn="hmismatches", shard=1000)
+    gm = coq_verdicts(run, "c17glob", gr, ctype="gcase", fn="gmismatches", shard=1000)
+    for idx, _ in hm[:3]:
+        run.violation({"kind": "correspondence-broken", "correspondence": "L1:C17:isAllInOneFile/isGeneratedBy vs Model/Fs.v is_aio/is_gen",
+                       "subcommand": heads[idx][0], "file_content": heads[idx][1],
+                       "implementation": {"isAllInOneFile": hobs[idx][0], "isGeneratedBy": hobs[idx][1]}}, no_input=True)
+    for idx, _ in gm[:3]:
+        run.violation({"kind": "correspondence-broken", "correspondence": "L1:C17:filepath.Match vs Model/Fs.v glob",
+                       "pattern": "*.shoot%s*.go" % names[idx][0], "name": names[idx][1],
+                       "implementation": gobs[idx]}, no_input=True)
+    shutil.rmtree(d, ignore_errors=True)
+    return {"header_cases": len(heads), "header_aio_true": sum(1 for a, _ in hobs if a),
+            "header_gen_true": sum(1 for _, g in hobs if g), "glob_cases": len(names),
+            "glob_true": sum(1 for o in gobs if o == "1")}
 
 
 # ------------------------------------------------------------------------ main
@@ -510,7 +617,7 @@ def setup(run):
     return shoot, mod
 
 
-def case_plan(run):
+def case_plan(run, fixed=False):
     """(cmd index, forced mode, forced invoke, expect_fail) per case: every subcommand x
     every mode x both ways of invoking is present in every run; the rest is random"""
     plan = []
@@ -518,7 +625,7 @@ def case_plan(run):
     n = 0
     for ci in range(4):
         for m in modes:
-            for invoke in (("pkg", "parent") if m != "star_space" else ("pkg", "pkgdot")):
+            for invoke in (("pkg", "parent") if (m != "star_space" or fixed) else ("pkg", "pkgdot")):
                 plan.append((ci, m, invoke, None))
         for invoke in ("pkgdot", "parent_bare", "abs"):
             plan.append((ci, "star", invoke, None))
@@ -534,12 +641,12 @@ def case_plan(run):
 
 def nontrivial(case):
     """a case is non-trivial when the run replaced or removed a pre-existing file of the package,
-    or ran next to look-alike / hard-linked files"""
+    or ran next to hard links to old outputs"""
     bn = {n: (i, b) for n, i, b in pkg_files(case["before"])}
     an = {n: (i, b) for n, i, b in pkg_files(case["after"])}
     replaced = any(n in an and an[n][0] != bn[n][0] for n in bn)
     removed = any(n not in an for n in bn)
-    return replaced or removed or bool(case["links"]) or bool(case["planted"])
+    return replaced or removed or bool(case["links"])
 
 
 def main(run):
@@ -551,17 +658,40 @@ def main(run):
         "K_clean_error_after_write": h_clean_error_after_write(shoot, mod),
         "K_clean_own_output": h_clean_own_output(shoot, mod),
     })
-    plan = case_plan(run)
+    fixed = outcome.get("K_clean_own_output") == "correct"
+    l1 = l1_checks(run)
+    plan = case_plan(run, fixed)
     seeds = [run.rng.getrandbits(48) for _ in plan]
     import random
 
+    retried = []
+
     def one(i):
         ci, mode, invoke, fail = plan[i]
-        return build_case(run, shoot, mod, i, random.Random(seeds[i]), cmd=fsgen.CMDS[ci], force_mode=mode,
-                          force_invoke=invoke, expect_fail=fail)
+        for attempt in range(3):
+            # a case is a function of its seed: a traced run that does not finish in time (seen once in
+            # ~1000 runs on a heavily loaded machine) is rebuilt from scratch and repeated
+            c = build_case(run, shoot, mod, i, random.Random(seeds[i]), cmd=fsgen.CMDS[ci], force_mode=mode,
+                           force_invoke=invoke, expect_fail=fail, fixed=fixed)
+            if not c["timed_out"]:
+                return c
+            retried.append(i)
+        # three timeouts under strace: does shoot itself terminate on this input?
+        c2 = build_case(run, shoot, mod, i, random.Random(seeds[i]), cmd=fsgen.CMDS[ci], force_mode=mode,
+                        force_invoke=invoke, expect_fail=fail, traced=False, fixed=fixed)
+        if c2["timed_out"]:
+            c2["nonterminating"] = True
+            return c2
+        raise lib.CheckBroken("strace run of case %d timed out three times although shoot terminates untraced: %s"
+                              % (i, c["args"]))
     with cf.ThreadPoolExecutor(max_workers=PAR) as ex:
         cases = list(ex.map(one, range(len(plan))))
-    run.log("traced runs: %d" % len(cases))
+    run.log("traced runs: %d (repeated after a timeout: %d)" % (len(cases), len(retried)))
+    for c in cases:
+        if c.get("nonterminating"):
+            run.violation({"kind": "property-fails-on-implementation", "what": "shoot does not terminate within 40 s",
+                           "case": summary(c), "sources": c["sources"]})
+    cases = [c for c in cases if not c.get("nonterminating")]
     rendered = [coq_case(c) for c in cases]
     mism = coq_verdicts(run, "c17cases", rendered)
     reported = 0
@@ -588,7 +718,7 @@ def main(run):
         kseeds = [run.rng.getrandbits(48) for _ in range(nk)]
 
         def onek(i):
-            return kill_case(run, shoot, mod, i, random.Random(kseeds[i]), traced=(i % 2 == 0))
+            return kill_case(run, shoot, mod, i, random.Random(kseeds[i]), traced=(i % 2 == 0), fixed=fixed)
         with cf.ThreadPoolExecutor(max_workers=4) as ex:
             kcases = list(ex.map(onek, range(nk)))
         run.log("killed runs: %d" % len(kcases))
@@ -648,7 +778,7 @@ def main(run):
             st = "during_or_after_clean"
         crash_points[st] = crash_points.get(st, 0) + 1
     cov = {
-        "evaluations": len(cases) + len(kcases) + sum(r["reads"] for r in readers),
+        "evaluations": len(cases) + len(kcases) + sum(r["reads"] for r in readers) + l1["header_cases"] + l1["glob_cases"],
         "distinct_nontrivial": len(keyset),
         "rule": ("each case = one strace'd run of the freshly built shoot on a generated package (1-3 source files, "
                  "1-2 eligible types each, one of the four subcommands) after a history of 0-3 earlier real runs in "
@@ -660,7 +790,7 @@ def main(run):
                  "invoked from the package directory and with [dir] (./p, p, absolute, .) occurs in every run, plus "
                  "invocations that must be rejected before writing, plus random combinations.  non-trivial = distinct "
                  "(command line, directory listing) where the run replaced or removed a pre-existing file or ran next "
-                 "to planted/hard-linked files" % len(fsgen.planted_menu(run.rng, "new"))),
+                 "to hard links" % len(fsgen.planted_menu(run.rng, "new"))),
         "exhaustive": False,
         "traces_validated_against_impl": len(cases),
         "programs": len(cases),
@@ -670,9 +800,10 @@ def main(run):
         "cases_with_victims": count(lambda c: any(o[0] == "Unlink" for o in c["ops"])),
         "cases_with_hard_links": count(lambda c: bool(c["links"])),
         "cases_rejected_before_writing": count(lambda c: not c["expect_ok"]),
+        "traced_runs_repeated_after_timeout": len(retried),
         "multi_chunk_writes": count(lambda c: sum(1 for o in c["ops"] if o[0] == "Write") >
                                     sum(1 for o in c["ops"] if o[0] == "CreateTemp")),
-        "findings_measured": outcome,
+        "findings_measured": outcome, "l1": l1,
         "sigkill_runs": len(kcases), "sigkill_states": crash_points,
         "concurrent_reader_runs": len(readers), "concurrent_reads": sum(r["reads"] for r in readers),
         "trusted_base": lib.TRUSTED_BASE_COMMON + [
@@ -684,7 +815,9 @@ def main(run):
             "behaviour of the kernel under SIGKILL is outside the model (a crash = a prefix of the operation list); the "
             "thorough tier samples it",
             "the two regular expressions of Clean are re-implemented by hand (is_aio, is_gen) and the glob by [glob]; "
-            "RE2 and filepath.Match are not modelled, they are compared on %d first-line variants per run" % len(fsgen.planted_menu(run.rng, "new")),
+            "RE2 and filepath.Match are not modelled; they are compared with the real isAllInOneFile/isGeneratedBy "
+            "(verif-tagged probe) and path/filepath.Match on %d damaged headers and %d names per run, and on %d planted "
+            "first-line variants in the traced runs" % (l1["header_cases"], l1["glob_cases"], len(fsgen.planted_menu(run.rng, "new"))),
             "the directory is flat and holds regular files only (a directory or FIFO whose name matches the pattern is "
             "outside the model and the stream)",
             "what shoot generates (names are taken from a Python mirror of fileName, contents from the trace) is the "
@@ -730,7 +863,7 @@ def replay(run, path):
     trace = run.scratch / "trace_replay.txt"
     args = [a.replace(c.get("root_hint", "\0"), str(root)) for a in c["args"]]
     res = fsgen.run_traced(shoot, root / c["cwd"], args, trace)
-    ops, outside = fsgen.project(trace.read_text(errors="replace"), root, root / "p")
+    ops, outside = fsgen.project(trace.read_text(errors="replace"), root, root / "p", root / c["cwd"])
     case = dict(c)
     case.update({"before": before, "after": fsgen.snapshot(root),
                  "kept": {ino: Path(k).read_bytes() for ino, k in keep.items()},
